@@ -215,6 +215,7 @@ func (ClawbackVestingAccount).GetStartTime
 func (ClawbackVestingAccount).GetVestingPeriods
     inline
 
+alias EthAcc github.com/haqq-network/haqq/types.EthAccount
 // ---- expected keepers of the vesting module (SDK implementations; assumed contracts)
 // stored accounts satisfy their representation invariant (what Validate() accepts)
 func (AccountKeeper).GetAccount
@@ -223,6 +224,7 @@ func (AccountKeeper).GetAccount
     ensures isdyn(result, *CVA) ==> dyn(result, *CVA) != nil && dyn(result, *CVA) < $alloc && ValidCVA(*dyn(result, *CVA))
             && (*dyn(result, *CVA)).BaseVestingAccount < $alloc && (*dyn(result, *CVA)).BaseAccount != nil
             && cnonneg((*dyn(result, *CVA)).DelegatedFree) && cnonneg((*dyn(result, *CVA)).DelegatedVesting)
+    ensures isdyn(result, *EthAcc) ==> dyn(result, *EthAcc) != nil
 func (AccountKeeper).SetAccount
     trusted
     pure
